@@ -13,7 +13,7 @@ NVARIANTS = 8   # harness/cmd/writeapi/main.go: limit = limits[nv % 4], padding 
 def run(ctx):
     tier = ctx.tier
     cfg = f'WriteAPI.MC_{tier}.cfg'
-    r = ctx.tlc_must_pass('WriteAPI', cfg, timeout=900, coverage=True, dump=True, workers=6)
+    r = ctx.tlc_must_pass('WriteAPI', cfg, timeout=900, coverage=True, dump=True)
     ctx.check_coverage(r, ['ReadBody', 'Decompress', 'LimitStep', 'Parse', 'Write', 'Respond'])
     limit = int(re.search(r'Limit\s*=\s*(\d+)', open(f'{ctx.spec_dir}/{cfg}').read()).group(1))
     cases = []
@@ -29,7 +29,7 @@ def run(ctx):
         for nv in vlib.sample_list(ctx.rng, list(range(NVARIANTS)), per_case):
             jobs.append(dict(c, nv=nv))
     binary = ctx.go_build('writeapi')
-    res, lines = ctx.replay(binary, jobs, timeout=1200, procs=8)
+    res, lines = ctx.replay(binary, jobs, timeout=1200, procs=vlib.NCPU)
     ctx.absorb(res, lines)
     ctx.exhaustive = True
     ctx.extra_cov['requests'] = len(cases)
